@@ -65,7 +65,7 @@ static uint8_t c06_pay(int pat, int i, int len)
 static void c06_case(int packed, int len, int idi)
 {
     int brief = packed & 1, mode = (packed >> 1) & 1, placement = (packed >> 2) & 1, variant = (packed >> 3) & 1,
-        pat = (packed >> 4) & 3, prior = (packed >> 6) & 7, fill = (packed >> 9) & 1;
+        pat = (packed >> 4) & 3, prior = (packed >> 6) & 7, fill = (packed >> 9) & 1, inplace = (packed >> 10) & 1;
     int fmt = fmt_index(brief ? "CanBrief" : "Can");
     int hdr = g_fmts[fmt].len;
     int pad = (4 - len % 4) % 4;
@@ -104,9 +104,9 @@ static void c06_case(int packed, int len, int idi)
     hs_add(fnv(msg, (size_t)hdr, fnv(src, (size_t)len, (uint64_t)packed * 131 + (uint64_t)idi)));
     volatile uint64_t rc = 0;
     char key[200];
-    const char* fn = brief ? (mode ? "CanBrief steps(copy;fields;Finalize)" : "Avtp_CanBrief_SetPayload") : (mode ? "Can steps(SetPayload;fields;Finalize)" : "Avtp_Can_CreateAcfMessage");
+    const char* fn = brief ? (mode ? "CanBrief steps(copy;fields;Finalize)" : "Avtp_CanBrief_SetPayload") : (mode ? (inplace ? "Can steps(write payload in place;fields;Finalize)" : "Can steps(SetPayload;fields;Finalize)") : "Avtp_Can_CreateAcfMessage");
     TRY_CALL({
-        if (!brief) { if (mode) w_can_steps(msg, id, src, (uint64_t)len, (uint64_t)variant); else w_can_create(msg, id, src, (uint64_t)len, (uint64_t)variant); }
+        if (!brief) { if (mode && inplace) w_can_steps_inplace(msg, id, src, (uint64_t)len, (uint64_t)variant); else if (mode) w_can_steps(msg, id, src, (uint64_t)len, (uint64_t)variant); else w_can_create(msg, id, src, (uint64_t)len, (uint64_t)variant); }
         else rc = mode ? w_canbrief_steps(msg, id, src, (uint64_t)len, (uint64_t)variant) : w_canbrief_create(msg, id, src, (uint64_t)len, (uint64_t)variant);
     }, {
         long rel = (long)((intptr_t)g_fault_addr - (intptr_t)msg);
@@ -140,17 +140,18 @@ static void c06_case(int packed, int len, int idi)
 static void suite_c06(void)
 {
     int maxlen_full = g_thorough ? 2028 : 64, maxlen_brief = g_thorough ? 2036 : 64;
-    for (int packed = 0; packed < 1024; packed++) {
+    for (int packed = 0; packed < 2048; packed++) {
         int prior = (packed >> 6) & 7; if (prior > 4) continue;
+        if ((packed >> 10) && ((packed & 1) || !((packed >> 1) & 1))) continue;       /* the in-place variant exists for the full format's step mode only */
         if (!my_unit()) continue;
         hs_reset();
         int brief = packed & 1;
         int maxlen = brief ? maxlen_brief : maxlen_full;
         for (int len = 0; len <= maxlen; len++) {
             if (g_lite && ((packed >> 4) & 3) > 1) break;
-            if (len > 72 && (packed >> 4) != 0 && (len % 61) != 0) continue;   /* long lengths: all of them for pattern 0/prior 0/fill 0, a stride otherwise */
+            if (len > 72 && (packed >> 4) != 0 && (len % 61) != 0 && !(g_thorough && ((packed >> 6) & 7) == 4)) continue;   /* long lengths: all of them for pattern 0/prior 0/fill 0 and (thorough) the initialised prior, a stride otherwise */
             for (int idi = 0; idi < C06_NIDS; idi++) {
-                if (len > 72 && idi >= 8) break;
+                if (len > 72 && idi >= 8 && !(g_thorough && (idi & 7) == (len & 7))) { if (!g_thorough) break; else continue; }
                 if (g_lite && idi >= 8 && (idi & 7) != (len & 7)) continue;
                 c06_case(packed, len, idi);
             }
@@ -336,7 +337,7 @@ int main(int argc, char** argv)
     }
     setvbuf(stdout, NULL, _IOFBF, 1 << 16);
     fault_install();
-    guarded_alloc(&gA, 40); guarded_alloc(&gB, 40); guarded_alloc(&gC, 40);
+    guarded_alloc(&gA, 48); guarded_alloc(&gB, 40); guarded_alloc(&gC, 40);
     if (g_plant) { g_max_per_key = 0; for (int len = 0; len <= 16; len++) c06_case(0, len, 3); emit_counters("PLANT"); return 0; }
     if (csarg) {
         g_verbose = 1;
